@@ -89,6 +89,7 @@ type cursor struct {
 
 	prevPrevLine lineBreakClass // the Line Break Class at index i-2 (see rules LB9 and LB10 for edge cases)
 	prevLine     lineBreakClass // the Line Break Class at index i-1 (see rules LB9 and LB10 for edge cases)
+	prevLineRune rune           // the rune [prevLine] stands for : the one at index i-1, or the base of a combining sequence (rule LB9)
 	line         lineBreakClass // the Line Break Class at index i
 	nextLine     lineBreakClass // the Line Break Class at index i+1
 
